@@ -21,7 +21,8 @@ synthArgs)`); the cache logic around it (FNV fallback key for `normKey = ""`, `o
 lookup, per-call synthetic arguments, store without them) is modelled.  The second half of the file models the
 *structural fingerprint* writer (`fingerprintDocument`, plan_cache_normalize.go:129-317) over a small document
 AST, as a function to the byte string that is fed to FNV-1a — enough to state which parts of a document do
-and do not participate in the key. -/
+and do not participate in the key (after the repairs of D-06b/c/g: directives, variable defaults and
+length-prefixed string contents do). -/
 namespace GqlModel.PlanCache
 
 abbrev Bytes := List UInt8
@@ -319,8 +320,8 @@ end GqlModel.PlanCache
 
 /-! ## The structural fingerprint (`fingerprintDocument`, plan_cache_normalize.go:129-317)
 
-A small document AST carrying everything the writer looks at *and* the parts it skips (directives, variable
-default values), so that "what participates in the key" is a statement about this function. The writer output is
+A small document AST carrying everything the writer looks at, so that "what participates in the key" is a
+statement about this function. The writer output is
 the byte string fed to FNV-1a. Fragment spreads are followed through an association list of fragment
 definitions with the `visited` set of the Go code; recursion is on explicit fuel. -/
 namespace GqlModel.PlanCache.Fp
@@ -357,6 +358,7 @@ structure VarDef where
 structure Frag where
   name : Bytes
   typeCond : Bytes
+  dirs : List Directive
   sel : List Sel
 
 structure OpDef where
@@ -379,7 +381,7 @@ def writeValue : Val → Bytes
   | .var n => 86 :: n
   | .int s => 105 :: s
   | .float s => 102 :: s
-  | .str s => 115 :: s
+  | .str s => 115 :: GqlModel.PlanCache.dec s.length ++ 58 :: s      -- length-prefixed: contents cannot imitate the encoding
   | .bool b => [98, if b then 49 else 48]
   | .enum s => 101 :: s
   | .list vs => 91 :: writeValues vs ++ [93]
@@ -392,9 +394,14 @@ def writeFields : List (Bytes × Val) → Bytes
   | (n, v) :: fs => n ++ 61 :: writeValue v ++ 44 :: writeFields fs
 end
 
-/-- `writeVariableDefs`: name ':' type ',' — the default value is not written. -/
+/-- `writeVariableDefs`: name ':' type ['=' default] ',' -/
 def writeVarDefs (ds : List VarDef) : Bytes :=
-  str "VD(" ++ (ds.flatMap fun d => d.name ++ 58 :: writeType d.type ++ [44]) ++ [41]
+  str "VD(" ++ (ds.flatMap fun d => d.name ++ 58 :: writeType d.type ++
+    (match d.default with | some v => 61 :: writeValue v | none => []) ++ [44]) ++ [41]
+
+/-- `writeDirectives`: '@' name '(' (arg '=' value ',')* ')' for every directive -/
+def writeDirectives (ds : List Directive) : Bytes :=
+  ds.flatMap fun d => 64 :: d.name ++ 40 :: writeFields d.args ++ [41]
 
 /-- `collectFragmentDefs` builds a map, so of two definitions with one name the later wins -/
 def findFrag (n : Bytes) : List Frag → Option Frag
@@ -405,34 +412,35 @@ def findFrag (n : Bytes) : List Frag → Option Frag
     | none => if f.name = n then some f else none
 
 /-- `writeSelectionSet`/`writeFragmentBody`, threading the `visited` set; returns the bytes written and the
-new visited set. Directives of fields, inline fragments and spreads are never written. -/
+new visited set. Directives are written where they stand (field: after the arguments; inline fragment: after the
+type condition; spread: after the name; fragment definition: after its type condition). -/
 def writeSels (frags : List Frag) : Nat → List Bytes → List Sel → Bytes × List Bytes
   | 0, vis, _ => ([], vis)
   | _+1, vis, [] => ([], vis)
-  | f+1, vis, .field alias name args _ sub :: rest =>
+  | f+1, vis, .field alias name args dirs sub :: rest =>
     let a := match alias with | some a => a ++ [58] | none => []
     let ar := if args.isEmpty then [] else 40 :: writeFields args ++ [41]
     let (sb, vis1) := match sub with
       | none => (([] : Bytes), vis)
       | some ss => let (b, v) := writeSels frags f vis ss; (123 :: b ++ [125], v)
     let (rb, vis2) := writeSels frags f vis1 rest
-    (a ++ name ++ ar ++ sb ++ 59 :: rb, vis2)
-  | f+1, vis, .inline tc _ sub :: rest =>
+    (a ++ name ++ ar ++ writeDirectives dirs ++ sb ++ 59 :: rb, vis2)
+  | f+1, vis, .inline tc dirs sub :: rest =>
     let (b, vis1) := writeSels frags f vis sub
     let (rb, vis2) := writeSels frags f vis1 rest
-    (str "..." ++ (tc.getD []) ++ 123 :: b ++ 125 :: 59 :: rb, vis2)
-  | f+1, vis, .spread name _ :: rest =>
+    (str "..." ++ (tc.getD []) ++ writeDirectives dirs ++ 123 :: b ++ 125 :: 59 :: rb, vis2)
+  | f+1, vis, .spread name dirs :: rest =>
     let (fb, vis1) :=
       if vis.contains name then (([] : Bytes), vis)
       else match findFrag name frags with
         | none => ([], name :: vis)
-        | some fr => let (b, v) := writeSels frags f (name :: vis) fr.sel; (70 :: fr.typeCond ++ 123 :: b ++ [125], v)
+        | some fr => let (b, v) := writeSels frags f (name :: vis) fr.sel; (70 :: fr.typeCond ++ writeDirectives fr.dirs ++ 123 :: b ++ [125], v)
     let (rb, vis2) := writeSels frags f vis1 rest
-    (str "..." ++ name ++ 59 :: fb ++ rb, vis2)
+    (str "..." ++ name ++ writeDirectives dirs ++ 59 :: fb ++ rb, vis2)
 
 /-- the bytes hashed by `fingerprintDocument(doc, op, operationName)` -/
 def fingerprintBytes (frags : List Frag) (o : OpDef) (operationName : Bytes) (fuel : Nat) : Bytes :=
-  str "OP:" ++ o.operation ++ 0 :: operationName ++ 0 :: writeVarDefs o.varDefs ++
+  str "OP:" ++ o.operation ++ 0 :: operationName ++ 0 :: writeVarDefs o.varDefs ++ writeDirectives o.dirs ++
     123 :: (writeSels frags fuel [] o.sel).1 ++ [125]
 
 /-- `fingerprintDocument`: hex of FNV-1a-64 of those bytes -/
